@@ -37,7 +37,13 @@ pub struct FuLi;
 
 impl private::Estimator for FuLi {
     fn estimate_unchecked<S: State>(spectrum: &Spectrum<S>) -> f64 {
-        spectrum.inner().as_slice()[1]
+        // A spectrum with a single entry has no singleton class: undefined rather than a panic
+        spectrum
+            .inner()
+            .as_slice()
+            .get(1)
+            .copied()
+            .unwrap_or(f64::NAN)
     }
 
     fn weight(_: usize, _: usize) -> f64 {
